@@ -719,11 +719,16 @@ func scenarios() []*mc.Scenario {
 	// entry was removed the storage is released.
 	for _, nfs := range []bool{false, true} {
 		suffix := map[bool]string{false: "fuse", true: "nfs"}[nfs]
-		r = append(r, concScenario("heldwriter-upload-cancel-unlink/"+suffix, worldCfg{nfs: nfs, initial: "ab", heldWriter: true, cancellable: true}, 0, func(w *world) {
+		sc := concScenario("heldwriter-upload-cancel-unlink/"+suffix, worldCfg{nfs: nfs, initial: "ab", heldWriter: true, cancellable: true}, 0, func(w *world) {
 			w.uploader("U")
 			w.writer(false, false, mutWrite)
 			w.unlinker()
-		}))
+		})
+		// Two free environment events (delay expiry, cancellation) at every
+		// point: bounded more tightly than the other scenarios, C16 only.
+		sc.Props = []string{prop}
+		sc.Bounds = map[string]int{"quick": 1, "thorough": 3}
+		r = append(r, sc)
 	}
 	// O_TRUNC and allocation against an upload while hard links come and go.
 	r = append(r, concScenario("upload-trunc-link/nfs", worldCfg{nfs: true, initial: "abc", cached: true}, 0, func(w *world) {
